@@ -77,6 +77,7 @@ pub fn cases(args: &[String]) {
     let mut rng = SplitMix64::new(seed ^ 0xC20);
     let mut out: Vec<Value> = Vec::new();
     for _ in 0..n {
+        crate::util::tick_idx(0, serde_json::Value::Null);
         let b = gen_f64(&mut rng, 1.0000001, 2.0);
         let a = gen_f64(&mut rng, 0.5, 64.0);
         let m = match rng.below(4) { 0 => rng.below(10), 1 => u64::MAX - rng.below(3), 2 => rng.next_u64(), _ => rng.range(1, 1 << 20) };
@@ -119,7 +120,14 @@ pub fn cases(args: &[String]) {
             ed.push(json!({"bytes": t.as_bytes(), "class": c, "m": pp.map(|x| x.1), "q": pp.map(|x| x.3)}));
         }
         let _ = v;
-        out.push(json!({"b": b.to_bits(), "m": m, "a": a.to_bits(), "q": q, "dumped": dumped, "bytes": bytes,
+        // a dump over an existing, longer file in the same directory: the reload must return what was dumped last
+        let longp = SetSketchParams::new(1.2345678901234567, u64::MAX, 19.876543210987654, u64::MAX - 1);
+        let _ = longp.dump_json(dirp);
+        let redumped = p.dump_json(dirp).is_ok();
+        let (oc, opp) = reload(dirp);
+        let overwrite = json!({"dumped": redumped, "class": oc, "same": opp == Some((b.to_bits(), m, a.to_bits(), q)) || (oc == 0 && opp.map(|x| (x.1, x.3)) == Some((m, q))),
+                               "file": std::fs::read_to_string(&file).unwrap_or_default()});
+        out.push(json!({"b": b.to_bits(), "m": m, "a": a.to_bits(), "q": q, "dumped": dumped, "bytes": bytes, "overwrite": overwrite,
                         "btok": btok.as_bytes(), "atok": atok.as_bytes(), "missing": missing, "roundtrip": roundtrip,
                         "prefixes": prefixes, "edits": ed}));
     }
